@@ -106,6 +106,25 @@ extern "C" void sym_body()
             SYM_EQ_(s, 1.0, "bundle multipliers sum to one");
             // stopping tests certify eps-optimality
             const double eps = sym_box("eps", 1e-8, 1e-3);
+            {
+                // the stopping tests are the documented ones (csearch.h): smeared error <= eps*sqrt(n) and |smeared subgradient|_2 <=
+                // eps*sqrt(n), with the smeared quantities recomputed here from the stored planes and multipliers. Together with
+                // "every stored plane is a lower bound" and "multipliers on the simplex" this IS the certificate
+                // f(x^) - f(z) <= e~ + |s~| |z - x^| <= eps*sqrt(n)*(1 + |z - x^|); the direct obligation below mostly exceeds nlsat
+                const double tol0 = eps * std::sqrt(static_cast<double>(n));
+                double       se   = 0.0, ss2 = 0.0;
+                for (tensor_size_t i = 0; i < bundle.m_size; ++i) se = se + bundle.m_alphas(i) * bundle.m_bundleE(i);
+                for (tensor_size_t c = 0; c < n; ++c)
+                {
+                    double sc = 0.0;
+                    for (tensor_size_t i = 0; i < bundle.m_size; ++i) sc = sc + bundle.m_alphas(i) * bundle.m_bundleS(i, c);
+                    ss2 = ss2 + sc * sc;
+                }
+                if (bundle.econverged(eps)) SYM_LE_(se, tol0, "econverged(eps) only if the smeared error <= eps*sqrt(n)");
+                else SYM_GT_(se, tol0, "econverged(eps) whenever the smeared error <= eps*sqrt(n)");
+                if (bundle.sconverged(eps)) SYM_LE_(ss2, tol0 * tol0, "sconverged(eps) only if |smeared subgradient|_2 <= eps*sqrt(n)");
+                else SYM_GT_(ss2, tol0 * tol0, "sconverged(eps) whenever |smeared subgradient|_2 <= eps*sqrt(n)");
+            }
             if (bundle.econverged(eps) && bundle.sconverged(eps))
             {
                 vector_t z(n);
